@@ -169,15 +169,69 @@ func buildPolicy(text string) (policy.Policy, error, error) {
 	return pol, cerr, nil
 }
 
+var polProbeNodes []datamodel.Node
+
+// polProbes are the data values a policy object is also evaluated against between two evaluations of
+// the case's own data (state remembered by the policy from one evaluation must not change the next one).
+func polProbes() []datamodel.Node {
+	if polProbeNodes == nil {
+		for _, d := range append(append([]string{}, polData...), "m(61:i1)", "m(62:i3)", "m(63:l(i1,i2))", "l(m(61:i1),m(62:i2))", "m()") {
+			if n, err := parseNode(d); err == nil {
+				polProbeNodes = append(polProbeNodes, n)
+			}
+		}
+	}
+	return polProbeNodes
+}
+
 func goPolicyMatch(pol policy.Policy, n datamodel.Node) (out string) {
 	defer func() {
 		if r := recover(); r != nil {
 			out = "panic"
 		}
 	}()
-	m, _ := pol.Match(n)
-	pm, _ := pol.PartialMatch(n)
-	return bstr(m) + " " + bstr(pm)
+	once := func(p policy.Policy) string {
+		m, _ := p.Match(n)
+		pm, _ := p.PartialMatch(n)
+		return bstr(m) + " " + bstr(pm)
+	}
+	r1 := once(pol)
+	// history: the same policy object is used on other data, then on this data again
+	func() {
+		defer func() { recover() }()
+		for _, pn := range polProbes() {
+			pol.Match(pn)
+			pol.PartialMatch(pn)
+		}
+	}()
+	if r2 := once(pol); r2 != r1 {
+		return "history: fresh=" + r1 + " after-other-data=" + r2
+	}
+	// and a second, equal policy object (decoded from the first one's IPLD form) that sees the other data FIRST
+	if nd, err := pol.ToIPLD(); err == nil {
+		if pb, err := policy.FromIPLD(nd); err == nil {
+			func() {
+				defer func() { recover() }()
+				for _, pn := range polProbes() {
+					pb.Match(pn)
+					pb.PartialMatch(pn)
+				}
+			}()
+			if r2 := once(pb); r2 != r1 {
+				return "history: fresh=" + r1 + " other-data-first=" + r2
+			}
+		}
+	}
+	// the policy as it reads back from its own IPLD form matches identically (DAG-JSON is left out here: go-ipld-prime
+	// prints a float without fraction as an integer, which is a codec matter and is reported under C07)
+	if nd, err := pol.ToIPLD(); err == nil {
+		if p2, err := policy.FromIPLD(nd); err == nil {
+			if r3 := once(p2); r3 != r1 {
+				return "roundtrip: built=" + r1 + " decoded=" + r3
+			}
+		}
+	}
+	return r1
 }
 
 func evalPolicy(line string) (string, string) {
